@@ -80,7 +80,10 @@ def _need(key, rhs_shape=None, cur=()):
     m = 0
     for n, e in enumerate(key):
         if isinstance(e, slice):
-            if e.stop is not None and e.stop >= 0:
+            if e.step is not None and e.step < 0:
+                # a downward slice reaches at most its start (existing modes: never beyond the current extent)
+                need.append(cur[n] if n < len(cur) else (e.start + 1 if (e.start is not None and e.start >= 0) else 1))
+            elif e.stop is not None and e.stop >= 0:
                 need.append(e.stop)
             elif n < len(cur):
                 need.append(cur[n])
@@ -101,6 +104,11 @@ def _from_end(key, shape):
         I = shape[n] if n < len(shape) else None
         if I is None:
             out.append(e)
+        elif isinstance(e, slice) and e.step is not None and e.step < 0:
+            # downward: a stop that underflows means "down to position 0 inclusive" (no non-negative stop says that)
+            a = e.start if (e.start is None or e.start >= 0) else e.start + I
+            b = e.stop if (e.stop is None or e.stop >= 0) else (e.stop + I if e.stop + I >= 0 else None)
+            out.append(slice(a, b, e.step) if (a is None or a >= 0) else slice(0, 0, None))
         elif isinstance(e, slice):
             a = e.start if (e.start is None or e.start >= 0) else max(e.start + I, 0)
             b = e.stop if (e.stop is None or e.stop >= 0) else max(e.stop + I, 0)
@@ -165,8 +173,15 @@ def _rand_key(rng, shape, write, grow_p=0.25, forms=("int", "int", "int", "int",
                 if step > 0:
                     a = None if rng.random() < 0.5 else int(rng.integers(0, I))
                     b = None if rng.random() < 0.5 else int(rng.integers((a or 0) + 1, I + 1))
-                else:
+                elif rng.random() < 0.5:
                     a, b = None, None
+                else:
+                    # a downward slice with explicit bounds, possibly underflowing (it then runs down to position 0 inclusive) or
+                    # starting below the extent (an empty region)
+                    a = [I - 1, max(0, I - 2), -1, None][int(rng.integers(0, 4))]
+                    b = [None, 0, -I - 1, -I - 3][int(rng.integers(0, 4))]
+                    if b == 0 and a is not None and a % I == 0:
+                        b = None                                  # (never an empty region)
                 key.append({"s": [a, b, step]})
             elif c == 0:
                 key.append({"s": [None, None, None]})
@@ -182,6 +197,9 @@ def _rand_key(rng, shape, write, grow_p=0.25, forms=("int", "int", "int", "int",
                 if I >= 2 and write and rng.random() < grow_p:
                     # a start counted from the end and a stop past the extent: the write grows the mode from that start on
                     key.append({"s": [-int(rng.integers(1, I + 1)), int(I + rng.integers(1, 3)), None]})
+                elif I >= 2 and rng.random() < 0.3:
+                    # bounds that overshoot the extent from the end are clamped to the beginning (NumPy slice semantics)
+                    key.append({"s": [[-I - 2, None, None], [-I - 1, max(1, I - 1), None], [-I - 3, -1, None], [None, -1, None]][int(rng.integers(0, 4))]})
                 elif I >= 2:
                     # bounds counted from the end (reads and writes)
                     key.append({"s": [[None, -1, None], [-1, None, None], [-I, -1, None], [-2, None, None]][int(rng.integers(0, 4))]})
@@ -190,6 +208,16 @@ def _rand_key(rng, shape, write, grow_p=0.25, forms=("int", "int", "int", "int",
         else:
             k = int(rng.integers(1, min(3, I) + 1))
             vals = [int(x) for x in rng.choice(I, size=k, replace=False)]
+            if I >= 3 and rng.random() < 0.35:
+                # a run of consecutive positions in another order (sometimes with only the interior re-ordered)
+                L = int(rng.integers(3, I + 1))
+                lo = int(rng.integers(0, I - L + 1))
+                run = list(range(lo, lo + L))
+                if L >= 4 and rng.random() < 0.5:
+                    mid = [run[j] for j in rng.permutation(np.arange(1, L - 1))]
+                    vals = [run[0]] + [int(x) for x in mid] + [run[-1]]
+                else:
+                    vals = [int(run[j]) for j in rng.permutation(L)]
             if not write and rng.random() < 0.3:
                 # reads may name a position more than once (every occurrence reads it)
                 vals = vals + [vals[int(rng.integers(0, len(vals)))] for _ in range(int(rng.integers(1, 3)))]
@@ -209,6 +237,8 @@ def _gen_history(rng, tier, forced=None):
     start = ["zeros", "dense", "sparse", "void", "sparse"][int(rng.integers(0, 5))]
     N = int(rng.integers(1, 4))
     shape = gen.rand_shape(rng, N, 1, 4)
+    if N <= 2 and rng.random() < 0.25:
+        shape = tuple(int(x) for x in rng.integers(4, 7, size=N))       # modes long enough for index lists of four to six positions
     if start == "void":
         init = None
         model = Model(None)
